@@ -101,7 +101,24 @@ func (c *c17Gen) step() string {
 	rec := func(expr string) string { return "_res.append(t(lambda: " + expr + "))\n" }
 	switch c.kind {
 	case "list":
-		switch g.Weighted(4, 2, 2, 2, 2, 2, 2, 2, 2, 2, 2, 2, 2, 1, 1, 1, 1, 1, 2, 2, 1) {
+		switch g.Weighted(4, 2, 2, 2, 2, 2, 2, 2, 2, 2, 2, 2, 2, 1, 1, 1, 1, 1, 2, 2, 1, 2, 3) {
+		case 21:
+			// the whole list assigned to an extended slice of itself or of an alias (lengths always match)
+			c.use("setslice-step-self")
+			return rec("setslice3(" + x + ", None, None, " + g.Str("-1", "-1", "1", "None") + ", " + g.Str(x, x, y) + ")")
+		case 22:
+			// an iterator object kept across the steps: it walks the live list, and once exhausted it stays exhausted
+			c.use("kept-iterator")
+			switch g.Weighted(2, 4, 1, 1) {
+			case 0:
+				return "it = iter(" + x + ")\n"
+			case 1:
+				return rec("(next(it, 'stop'), next(it, 'stop'))")
+			case 2:
+				return rec("[e for e in it]")
+			default:
+				return rec("(list(it), next(it, 'stop'))")
+			}
 		case 18:
 			c.use("delslice-step")
 			return rec("delslice3(" + x + ", " + c.oidx() + ", " + c.oidx() + ", " + c.stepv() + ")")
@@ -288,7 +305,7 @@ func TestC17(t *testing.T) {
 		var sb strings.Builder
 		switch c.kind {
 		case "list":
-			sb.WriteString("a = [1, 2, 3]\nb = a\nc = [3, 1]\n")
+			sb.WriteString("a = [1, 2, 3]\nb = a\nc = [3, 1]\nit = iter(a)\n")
 		case "dict":
 			sb.WriteString("a = {'k': 1}\nb = a\nc = {}\n")
 		case "set", "set-mixed":
